@@ -9,6 +9,8 @@ let parse_step (s : string) : ClientMux.step =
   | ["T"; c] -> ClientMux.Timeout (n_of_hex c)
   | ["C"; c] -> ClientMux.Cancel (n_of_hex c)
   | ["D"] -> ClientMux.Deliver
+  | ["F"; c; i] -> ClientMux.Forward (n_of_hex c, n_of_hex i)
+  | ["Fn"; c] -> ClientMux.FwdNotify (n_of_hex c)
   | ["r"; k; v] -> ClientMux.Srv (ClientMux.SReply (n_of_hex k, n_of_hex v))
   | ["u"; i; v] -> ClientMux.Srv (ClientMux.SUnknown (n_of_hex i, n_of_hex v))
   | ["n"; k; v] -> ClientMux.Srv (ClientMux.SNotify (n_of_hex k, n_of_hex v))
@@ -21,23 +23,33 @@ let parse_oc (s : string) : ClientMux.oc =
   if s = "t" then ClientMux.CTimeout
   else if s = "c" then ClientMux.CCancel
   else if s = "x" then ClientMux.CClosed
+  else if s = "r" then ClientMux.CRefused
+  else if s = "n" then ClientMux.CNone
   else if String.length s >= 2 && s.[0] = 'g' then ClientMux.CGot (n_of_hex (String.sub s 1 (String.length s - 1)))
   else if String.length s >= 2 && s.[0] = 'b' then ClientMux.CBad (n_of_hex (String.sub s 1 (String.length s - 1)))
   else failwith ("bad outcome " ^ s)
 
 let show_oc (o : ClientMux.oc) = match o with
   | ClientMux.CGot t -> "g" ^ hex_of_n t | ClientMux.CTimeout -> "t" | ClientMux.CCancel -> "c"
-  | ClientMux.CClosed -> "x" | ClientMux.CBad c -> "b" ^ hex_of_n c
+  | ClientMux.CClosed -> "x" | ClientMux.CRefused -> "r" | ClientMux.CNone -> "n" | ClientMux.CBad c -> "b" ^ hex_of_n c
 
 let step _ cs os =
   let f = fields cs and o = fields os in
   let ws = (get f "k" = "ws") in
   let sched = let s = get f "sched" in if s = "-" then [] else Stdlib.List.map parse_step (split_on ';' s) in
   let case = { ClientMux.c_ws = ws; c_n = n_of_hex (get f "n"); c_sched = sched } in
-  if not (ClientMux.c04_wf case) then failwith "case is not well-formed (generator)";
+  let has_fwd = Stdlib.List.exists (fun st -> match st with ClientMux.Forward _ | ClientMux.FwdNotify _ -> true | _ -> false) sched in
+  if has_fwd && get f "k" <> "async" then failwith "forward steps on a client without forward_message";
+  (* expect=reuse: a hand-written replay of an id-reuse schedule (outside all_fresh, where the
+     model itself violates the property: C04_id_reuse_refuted); every generated case must be wf *)
+  let reuse = (get_opt f "expect" = Some "reuse") in
+  if not reuse && not (ClientMux.c04_wf case) then failwith "case is not well-formed (generator)";
+  if reuse && not (ClientMux.all_enabled ws ClientMux.mux0 sched) then failwith "reuse case: a step is not enabled";
   let out = ref [] in
   let model = ClientMux.model_C04 case in
-  if not (ClientMux.ok_C04 case model) then out := "BAD\tside=model\tclause=ok_C04(model)=false" :: !out;
+  if not (ClientMux.ok_C04 case model) then
+    out := (if reuse then "BAD\tside=model\tclause=ok_C04(model)=false[id-reuse schedule, outside all_fresh]"
+            else "BAD\tside=model\tclause=ok_C04(model)=false") :: !out;
   (match get_opt o "crash" with
    | Some c -> out := ("BAD\tside=impl\tclause=crash:" ^ c) :: !out
    | None ->
